@@ -246,7 +246,7 @@ func c05Known(info convInfo) KnownMatcher {
 		// recorded defect "a kernel with one channel is broadcast over the input channels"
 		// (pinned by TestConv "multiple channels"): the observed tensor must equal the
 		// reference evaluated with the kernel repeated along the channel axis.
-		if info.w.Rank() == info.x.Rank() && info.w.Shape[1] == 1 && info.x.Shape[1] > 1 && info.at.AutoPad != "VALID" {
+		if info.w.Rank() == info.x.Rank() && info.w.Shape[1] == 1 && info.x.Shape[1] > 1 {
 			C := info.x.Shape[1]
 			ws := append([]int{}, info.w.Shape...)
 			ws[1] = C
@@ -257,7 +257,11 @@ func c05Known(info convInfo) KnownMatcher {
 					copy(rep.Bits[(m*C+ch)*per:(m*C+ch+1)*per], info.w.Bits[m*per:(m+1)*per])
 				}
 			}
-			if alt, err := ref.Conv(info.x, rep, info.b, info.at); err == nil {
+			at := info.at
+			if at.AutoPad == "VALID" { // combined with the other recorded defect (VALID computed as SAME_UPPER)
+				at.AutoPad = "SAME_UPPER"
+			}
+			if alt, err := ref.Conv(info.x, rep, info.b, at); err == nil {
 				if k, _ := CompareValue(o.Vals[0], alt, CmpTol); k == "" {
 					return "Conv:single-channel-kernel-broadcast-over-input-channels"
 				}
